@@ -58,7 +58,7 @@ var byteStr bool
 var nestedFields = map[string]bool{"healthChecks": true}
 
 // records whose pointer slices are read as lists of records
-var slicesOfRecords = map[string]bool{"Backend": true}
+var slicesOfRecords = map[string]bool{"Backend": true, "weightedBackend": true}
 
 // calls that only report: `x.metricsCollector.UpdateBackendHealth(name, healthy)` is kept as an entry
 // appended to the field `fx` of the structure of `x` (the order of reports is part of the behaviour)
@@ -82,6 +82,7 @@ var specs = []spec{
 	{Pkg: "internal/loadbalancer", Recv: "LeastConnectionsStrategy", Name: "AddBackend", LeanName: "lcAddBackend"},
 	{Pkg: "internal/loadbalancer", Recv: "IPHashStrategy", Name: "AddBackend", LeanName: "ipAddBackend"},
 	{Pkg: "internal/loadbalancer", Recv: "IPHashConsistentStrategy", Name: "AddBackend", LeanName: "ipcAddBackend"},
+	{Pkg: "internal/loadbalancer", Recv: "", Name: "sameBackends"},
 	{Pkg: "internal/loadbalancer", Recv: "RoundRobinStrategy", Name: "RemoveBackend", LeanName: "rrRemoveBackend"},
 	{Pkg: "internal/loadbalancer", Recv: "IPHashConsistentStrategy", Name: "RemoveBackend", LeanName: "ipcRemoveBackend"},
 	{Pkg: "internal/loadbalancer", Recv: "IPHashStrategy", Name: "RemoveBackend", LeanName: "ipRemoveBackend"},
